@@ -417,9 +417,36 @@ def re_loopy(r):
     return txt, cat(nodes)
 
 
+def re_counted_in_loop(r):
+    """a loop ( * + {n,m} ) whose body BEGINS with / ends with / is a counted repeat e{lo,hi} (lo 0 or 1, hi 2..3): the loop jumps back to
+    the first instruction of its body, which for e{lo,hi} is the start of its own prolog / repeat section (re.c _yr_re_emit)"""
+    lz = r.random() < 0.5
+    q = "?" if lz else ""
+    a, b, c = r.sample([0x61, 0x62, 0x63, 0x31, 0x5f], 3)
+    lo, hi = r.choice([(0, 2), (0, 3), (1, 2), (1, 3), (0, 1), (2, 3)])
+    inner = rep(lit(b), lo, hi); inner["lz"] = lz; inner["brace"] = True
+    itxt = "%s{%d,%d}%s" % (re_lit(b), lo, hi, q)
+    shape = r.choice(["ET", "TE", "E", "ETE"])
+    if shape == "ET": body, btxt = cat([inner, lit(c)]), itxt + re_lit(c)
+    elif shape == "TE": body, btxt = cat([lit(c), inner]), re_lit(c) + itxt
+    elif shape == "E": body, btxt = inner, itxt
+    else: body, btxt = cat([inner, lit(c), dict(inner)]), itxt + re_lit(c) + itxt
+    form = r.choice(["+", "+", "*", "{2,3}", "{1,}"])
+    if form == "*": outer = rep(body, 0, -1)
+    elif form == "+": outer = rep(body, 1, -1)
+    else:
+        olo, ohi = {"{2,3}": (2, 3), "{1,}": (1, -1)}[form]
+        outer = rep(body, olo, ohi); outer["brace"] = True
+    outer["lz"] = lz
+    end = r.choice([(re_lit(0x7a), [lit(0x7a)]), ("$", [{"t": "eol"}]), (re_lit(a), [lit(a)])])
+    return re_lit(a) + "(" + btxt + ")" + form + q + end[0], cat([lit(a), outer] + end[1])
+
+
 def re_top(r, depth, anchors=True):
     if anchors and r.random() < 0.12:
         return re_loopy(r)
+    if r.random() < 0.08:
+        return re_counted_in_loop(r)
     lazy = r.random() < 0.5
     if r.random() < 0.3:
         t, nd = re_family(r, lazy)
